@@ -20,6 +20,7 @@ import (
 	"encoding/binary"
 	"errors"
 	"fmt"
+	"io"
 	"math/rand"
 	"os"
 	"path/filepath"
@@ -451,8 +452,61 @@ func (c *pollCtx) Err() error {
 }
 func (c *pollCtx) Value(any) any { return nil }
 
+// readFault makes the import SOURCE fail while the importer is at work: once
+// the importer's context has been polled more than `poll` times (the importer
+// polls once per batch in each validator and once per iteration of the write
+// loop, so poll 2*nbat+j names the j-th iteration of the write loop), every
+// read of the header with file index >= from of one of the two import files
+// fails the way a file that has become shorter than its mapping (or a failing
+// disk) does.  The failure is injected BELOW the real file source, so the
+// error wrapping of GetHeader, the iterators and the write loop are the code's
+// own.
+type readFault struct {
+	block bool
+	poll  int
+	from  int
+	kind  string // eof: (0, io.EOF); eofpart: half the bytes and io.EOF; ueof: io.ErrUnexpectedEOF; eio: an unrelated I/O error
+}
+
+type faultyImportFile struct {
+	chainimport.ImportHeadersFile
+	block bool
+	rf    *readFault
+	ctx   *pollCtx
+	hits  *int
+}
+
+func (f *faultyImportFile) ReadAt(p []byte, off int64) (int, error) {
+	rf := f.rf
+	if rf != nil && rf.block == f.block && off >= chainimport.ImportMetadataSize && f.ctx.polls > rf.poll {
+		sz := int64(32)
+		if f.block {
+			sz = 80
+		}
+		if int((off-chainimport.ImportMetadataSize)/sz) >= rf.from {
+			*f.hits++
+			switch rf.kind {
+			case "eof":
+				return 0, io.EOF
+			case "eofpart":
+				n, _ := f.ImportHeadersFile.ReadAt(p[:len(p)/2], off)
+				return n, io.EOF
+			case "ueof":
+				return 0, io.ErrUnexpectedEOF
+			default:
+				return 0, errors.New("input/output error")
+			}
+		}
+	}
+	return f.ImportHeadersFile.ReadAt(p, off)
+}
+
 // runImport runs the real importer with a watchdog.
 func runImport(w *world, bp, fp string, bs int, failB, failF, cancelAt int) string {
+	return runImportRF(w, bp, fp, bs, failB, failF, cancelAt, nil)
+}
+
+func runImportRF(w *world, bp, fp string, bs int, failB, failF, cancelAt int, rf *readFault) string {
 	type res struct{ s string }
 	ch := make(chan res, 1)
 	go func() {
@@ -474,7 +528,21 @@ func runImport(w *world, bp, fp string, bs int, failB, failF, cancelAt int) stri
 			ch <- res{"err options"}
 			return
 		}
-		_, err = imp.Import(newPollCtx(cancelAt))
+		ctx := newPollCtx(cancelAt)
+		hits := 0
+		if rf != nil {
+			ok := chainimport.VerifWrapSourceFiles(imp, func(block bool, f chainimport.ImportHeadersFile) chainimport.ImportHeadersFile {
+				return &faultyImportFile{ImportHeadersFile: f, block: block, rf: rf, ctx: ctx, hits: &hits}
+			})
+			if !ok {
+				ch <- res{"err options"}
+				return
+			}
+		}
+		_, err = imp.Import(ctx)
+		if rf != nil && hits > 0 {
+			rfHit = true
+		}
 		ch <- res{classify(err)}
 	}()
 	select {
@@ -484,6 +552,9 @@ func runImport(w *world, bp, fp string, bs int, failB, failF, cancelAt int) stri
 		return "HANG"
 	}
 }
+
+// rfHit: the last import ran into its injected read fault
+var rfHit bool
 
 // ---------------------------------------------------------------- generator
 
@@ -506,6 +577,13 @@ type directive struct {
 	bs     int
 	length int // headers above the lower tip
 	cancel int // poll at which the context is cancelled (0 = not at all, k+1 = poll k)
+
+	// read fault of an import source in the write phase (rfKind != ""): armed at the rfIter-th iteration of the write
+	// loop, from the header rfOff places above the first new one
+	rfKind  string
+	rfBlock bool
+	rfIter  int
+	rfOff   int
 }
 
 // corpus: directed cases run at the start of every run.  "first new header bad
@@ -869,9 +947,32 @@ func oneCaseD(t *tr.W, r *rand.Rand, forceKind string, dir *directive) {
 			t.Hit("cancel.later")
 		}
 	}
-	t.Case("s %d sf %d bs %d bnet %d fnet %d btyp %d ftyp %d open %d failb %s failf %s cancel %s kind %s",
+	var rf *readFault
+	rfs, rfp, rfi, rfk := "-", "-", "-", "-"
+	if dir != nil && dir.rfKind != "" {
+		rf = &readFault{block: dir.rfBlock, poll: 2*nbat + dir.rfIter, from: eff + 1 - s + dir.rfOff, kind: dir.rfKind}
+		rfs, rfp, rfi, rfk = "1", fmt.Sprint(rf.poll), fmt.Sprint(rf.from), rf.kind
+		if rf.block {
+			rfs = "0"
+		}
+		t.Hit("readfault.kind." + rf.kind)
+		t.Hit("readfault.side." + map[bool]string{true: "block", false: "filter"}[rf.block])
+		switch {
+		case rf.from >= len(spec.blocks):
+			t.Hit("readfault.at.beyond-file")
+		case rf.from == len(spec.blocks)-1:
+			t.Hit("readfault.at.last-header")
+		case dir.rfOff%effBs == 0:
+			t.Hit("readfault.at.batch-start")
+		case (dir.rfOff+1)%effBs == 0:
+			t.Hit("readfault.at.batch-end")
+		default:
+			t.Hit("readfault.at.mid-batch")
+		}
+	}
+	t.Case("s %d sf %d bs %d bnet %d fnet %d btyp %d ftyp %d open %d failb %s failf %s cancel %s rfs %s rfp %s rfi %s rfk %s kind %s",
 		spec.bstart, spec.fstart, bs, spec.bnet, spec.fnet, spec.btyp, spec.ftyp, openOK, optStr(failB), optStr(failF),
-		optStr(cancelAt), kind)
+		optStr(cancelAt), rfs, rfp, rfi, rfk, kind)
 	t.Hit("kind." + kind)
 	t.Hit(fmt.Sprintf("bs.%d", bs))
 	switch {
@@ -899,7 +1000,11 @@ func oneCaseD(t *tr.W, r *rand.Rand, forceKind string, dir *directive) {
 		fl = append(fl, fmt.Sprint(n.f.id(spec.filters[i])))
 	}
 	t.Op("file", "b ["+strings.Join(bl, " ")+"] f ["+strings.Join(fl, " ")+"]")
-	r1 := runImport(w, bp, fp, bs, failB, failF, cancelAt)
+	rfHit = false
+	r1 := runImportRF(w, bp, fp, bs, failB, failF, cancelAt, rf)
+	if rf != nil {
+		t.Hit(fmt.Sprintf("readfault.reached.%v", rfHit))
+	}
 	t.Hit("result." + strings.ReplaceAll(r1, " ", "-"))
 	t.Op("import", r1)
 	t.Op("dump", w.dump(n))
@@ -908,6 +1013,56 @@ func oneCaseD(t *tr.W, r *rand.Rand, forceKind string, dir *directive) {
 	t.Hit("result2." + strings.ReplaceAll(r2, " ", "-"))
 	t.Op("import", r2)
 	t.Op("dump", w.dump(n))
+}
+
+// readFaultCases: honest files whose SOURCE starts failing in the middle of the
+// write phase - at the first, a middle and the last iteration of the write
+// loop, from a header at a batch start, inside a batch, at a batch end, the
+// last header of the file and beyond it (never reached) - on either file, with
+// every kind of read error, for level stores and for a block store that is
+// ahead.  An import may only report success if both stores end up holding the
+// file up to its end.  The cases draw from a PRNG stream of their own.
+func readFaultCases(t *tr.W, thorough bool) {
+	r := tr.Rng(1414)
+	kinds := []string{"eof", "eofpart", "ueof", "eio"}
+	k := 0
+	for _, bs := range []int{1, 2, 3, 4, 1000, 0} {
+		for _, length := range []int{1, 5, 8} {
+			ebs := bs
+			if ebs <= 0 || ebs > length {
+				ebs = length
+			}
+			nIter := (length + ebs - 1) / ebs
+			iters := []int{0}
+			if nIter > 2 {
+				iters = append(iters, nIter/2)
+			}
+			if nIter > 1 {
+				iters = append(iters, nIter-1)
+			}
+			for _, it := range iters {
+				// offsets (relative to the first new header) of the first unreadable header: the first header of the
+				// batch being read, one inside it, its last, the first of the next batch, the file's last, beyond the file
+				offs := map[int]bool{it * ebs: true, it*ebs + ebs/2: true, it*ebs + ebs - 1: true, (it + 1) * ebs: true,
+					length - 1: true, length: true}
+				for off := 0; off <= length; off++ {
+					if !offs[off] {
+						continue
+					}
+					if !thorough && (k+off)%2 == 1 && off != it*ebs && off != length-1 {
+						continue
+					}
+					d := directive{name: "read-fault", bTip: []int{0, 3}[k%2], kind: "honest", bs: bs, length: length,
+						rfKind: kinds[k%4], rfBlock: k%3 != 0, rfIter: it, rfOff: off}
+					if k%7 == 6 {
+						d.bTip, d.ahead = 6, 2 // the divergence region is written first (filter headers only), then the new one
+					}
+					k++
+					oneCaseD(t, r, "", &d)
+				}
+			}
+		}
+	}
 }
 
 func Run(t *tr.W, thorough bool) {
@@ -924,6 +1079,7 @@ func Run(t *tr.W, thorough bool) {
 	for i := range corpus {
 		oneCaseD(t, r, "", &corpus[i])
 	}
+	readFaultCases(t, thorough)
 	for i := 0; i < n; i++ {
 		oneCase(t, r, "")
 	}
